@@ -64,41 +64,44 @@ type Term struct {
 }
 
 type termCtx struct {
+	keyBuf []byte
+	bvc    map[[2]uint64]*Term
 	tab    map[string]*Term
 	nextID int
 	tt, ff *Term
 }
 
 func newTermCtx() *termCtx {
-	c := &termCtx{tab: make(map[string]*Term)}
+	c := &termCtx{tab: make(map[string]*Term), bvc: make(map[[2]uint64]*Term)}
 	c.tt = c.intern(&Term{op: "const", sort: boolSort, cv: 1, konst: true})
 	c.ff = c.intern(&Term{op: "const", sort: boolSort, cv: 0, konst: true})
 	return c
 }
 
 func (c *termCtx) key(t *Term) string {
-	var sb strings.Builder
-	sb.WriteString(t.op)
-	sb.WriteByte('|')
-	sb.WriteString(t.sort.String())
+	b := c.keyBuf[:0]
+	b = append(b, t.op...)
+	b = append(b, '|', byte('0'+t.sort.k))
+	b = strconv.AppendInt(b, int64(t.sort.w), 10)
 	switch t.op {
 	case "const":
-		sb.WriteByte('|')
+		b = append(b, '|')
 		if t.iv != nil {
-			sb.WriteString(t.iv.String())
+			b = t.iv.Append(b, 10)
 		} else {
-			sb.WriteString(strconv.FormatUint(t.cv, 16))
+			b = strconv.AppendUint(b, t.cv, 16)
 		}
 	case "var":
-		sb.WriteByte('|')
-		sb.WriteString(t.name)
+		b = append(b, '|')
+		b = append(b, t.name...)
 	default:
 		for _, a := range t.args {
-			sb.WriteByte(',')
-			sb.WriteString(strconv.Itoa(a.id))
+			b = append(b, ',')
+			b = strconv.AppendInt(b, int64(a.id), 10)
 		}
 	}
-	return sb.String()
+	c.keyBuf = b
+	return string(b)
 }
 
 func (c *termCtx) intern(t *Term) *Term {
@@ -134,7 +137,14 @@ func (c *termCtx) Bool(b bool) *Term {
 }
 
 func (c *termCtx) BV(w int, v uint64) *Term {
-	return c.intern(&Term{op: "const", sort: bvSort(w), cv: v & mask(w), konst: true})
+	v &= mask(w)
+	k := [2]uint64{uint64(w), v}
+	if t, ok := c.bvc[k]; ok {
+		return t
+	}
+	t := c.intern(&Term{op: "const", sort: bvSort(w), cv: v, konst: true})
+	c.bvc[k] = t
+	return t
 }
 
 func (c *termCtx) Int(v *big.Int) *Term {
